@@ -1278,6 +1278,165 @@ def json_compare(ef, objs, trailer):
         return str(e)
 
 
+# ---------------------------------------------------------------- extension: arbitrary ("wild") encryption dictionaries
+WILD_NAMES = [b"A", b"B", b"StdCF", b"Identity"]
+CFDP_N = Name(b"CryptFilterDecodeParms")
+
+
+def wild_dict(rng, V):
+    """an encryption dictionary aimed at the case splits of EncryptionParameters::initialize / interpretCF: /CF values that are not
+    dictionaries, /CFM V2 / AESV2 / AESV3 / None / absent / unknown / not a name, an entry called Identity, /StmF /StrF /EFF absent, defined,
+    undefined, /EncryptMetadata absent / true / false / not a boolean - for every /V (below 4 all of it must be ignored)"""
+    R = {1: 2, 2: 3, 4: 4, 5: 5}[V]
+    n = 48 if V == 5 else 32
+    e = {b"Filter": Name(b"Standard"), b"V": V, b"R": R, b"O": Str(bytes(rng.randrange(256) for _ in range(n))),
+         b"U": Str(bytes(rng.randrange(256) for _ in range(n))), b"P": rng.choice([-4, -3904, -1])}
+    if V == 2:
+        e[b"Length"] = 128
+    if V == 5:
+        e[b"OE"], e[b"UE"], e[b"Perms"] = Str(bytes(32)), Str(bytes(32)), Str(bytes(16))
+    if rng.random() < 0.9:
+        cf = {}
+        for nm in rng.sample(WILD_NAMES, rng.choice([0, 1, 2, 3, 4])):
+            k = rng.randrange(9)
+            if k == 0:
+                cf[nm] = rng.choice([7, None, Name(b"V2")])
+            else:
+                ent = {b"Type": Name(b"CryptFilter")}
+                m = [None, b"None", b"V2", b"AESV2", b"AESV3", b"Foo", b"V2", b"AESV2"][k - 1]
+                if m is not None:
+                    ent[b"CFM"] = Name(m) if rng.random() < 0.93 else Str(m)
+                cf[nm] = ent
+        if cf or rng.random() < 0.5:
+            e[b"CF"] = cf
+    for key in (b"StmF", b"StrF", b"EFF"):
+        if rng.random() < 0.75:
+            e[key] = Name(rng.choice(WILD_NAMES + [b"Missing", b"Identity"]))
+    k = rng.randrange(5)
+    if k < 3:
+        e[b"EncryptMetadata"] = [True, False, 0][k]
+    return e
+
+
+def wild_stream_dicts(rng):
+    """the /Filter x /DecodeParms shapes aimed at the case splits of QPDF::decryptStream"""
+    nm = lambda: Name(rng.choice(WILD_NAMES + [b"Missing"]))
+    full = lambda: {b"Type": CFDP_N, b"Name": nm()}
+    C, X = Name(b"Crypt"), Name(b"ASCIIHexDecode")
+    shapes = [
+        {}, {b"Filter": C}, {b"Filter": C, b"DecodeParms": full()}, {b"Filter": C, b"DecodeParms": {b"Name": nm()}},
+        {b"Filter": C, b"DecodeParms": {b"Type": CFDP_N}}, {b"Filter": C, b"DecodeParms": {b"Type": Name(b"Other"), b"Name": nm()}},
+        {b"Filter": C, b"DecodeParms": [full()]}, {b"Filter": C, b"DecodeParms": []}, {b"Filter": C, b"DecodeParms": None},
+        {b"Filter": [C], b"DecodeParms": full()}, {b"Filter": [C], b"DecodeParms": [full()]}, {b"Filter": [C], b"DecodeParms": [None]},
+        {b"Filter": [C]}, {b"Filter": [C], b"DecodeParms": [{b"Name": nm()}]}, {b"Filter": [C], b"DecodeParms": [{b"Type": CFDP_N}]},
+        {b"Filter": [X, C], b"DecodeParms": [None, full()]}, {b"Filter": [X, C], b"DecodeParms": [full(), None]},
+        {b"Filter": [X, C], b"DecodeParms": full()}, {b"Filter": [X, C], b"DecodeParms": [None, full(), None]},
+        {b"Filter": [C, X], b"DecodeParms": [{b"Name": nm()}, None]}, {b"Filter": [7, C], b"DecodeParms": [None, full()]},
+        {b"Filter": [C, C], b"DecodeParms": [{b"Name": nm()}, {b"Name": nm()}]}, {b"Filter": X}, {b"Filter": [X]},
+        {b"Filter": X, b"DecodeParms": full()}, {b"Filter": [C], b"DecodeParms": [7]},
+    ]
+    return [dict(d) for d in rng.sample(shapes, 7)]
+
+
+def part_wild(chk, run, drv):
+    """model vs library on ARBITRARY encryption dictionaries (well formed or not) opened with the file key: the methods initialize() arrives at
+    and, byte for byte, what every string and stream comes back as (the ciphertext is arbitrary); where the ISO rule of DqIso.v defines
+    the method and the leaf is outside dq_in_finding_class, the model's method must be that method (dq_method_selection_*, on the
+    extracted code)"""
+    rng = chk.rng
+    work = common.workdir("C06")
+    nfiles = 48 if chk.tier != "thorough" else 600
+    files = []
+    for i in range(nfiles):
+        V = [1, 2, 4, 5, 4, 5][i % 6]
+        e = wild_dict(rng, V)
+        key = bytes(rng.randrange(256) for _ in range({1: 5, 2: 16, 4: 16, 5: 32}[V]))
+        D = pdfgen.Doc()
+        D.version = b"1.7"
+        blob = lambda: bytes(rng.randrange(256) for _ in range(rng.choice([0, 16, 32, 48, 64, 32, 48])))
+        D.objects[1] = {b"Type": Name(b"Catalog"), b"Pages": Ref(2), b"Metadata": Ref(5), b"Info6": Ref(6)}
+        D.objects[2] = {b"Type": Name(b"Pages"), b"Kids": [Ref(3)], b"Count": 1}
+        D.objects[3] = {b"Type": Name(b"Page"), b"Parent": Ref(2), b"MediaBox": [0, 0, 10, 10], b"Contents": Ref(4)}
+        D.objects[4] = Stream({}, blob())
+        md = {b"Type": Name(b"Metadata"), b"Subtype": Name(b"XML")}
+        if rng.random() < 0.3:
+            md.update(rng.choice(wild_stream_dicts(rng)))
+        D.objects[5] = Stream(md, blob())
+        D.objects[6] = {b"A": Str(blob()), b"B": [Str(blob()), {b"C": Str(blob())}]}
+        for k, sd in enumerate(wild_stream_dicts(rng)):
+            if rng.random() < 0.3:
+                sd[b"Note"] = Str(blob())
+            D.objects[7 + k] = Stream(sd, blob())
+        id0 = bytes(rng.randrange(256) for _ in range(16))
+        tr = {b"Root": Ref(1), b"Encrypt": e, b"ID": [Str(id0), Str(id0)]}
+        path = os.path.join(work, "wild%03d.pdf" % i)
+        with open(path, "wb") as fh:
+            fh.write(gen.write_classic_sparse(D, tr))
+        files.append((path, V, e, key, id0, D))
+    impl = [parse_drv(o) for o in common.run_lines(drv, ["c6leaves %s H:%s 1" % (hexs(p.encode()), k.hex()) for p, V, e, k, i0, D in files], shards=4)]
+    opened = run(["c6open " + " ".join(gen.rdict_tokens(e) + [hexs(i0), "H:" + hexs(k)]) for p, V, e, k, i0, D in files], shards=4)
+    dl, meta = [], []
+    for (p, V, e, k, i0, D), mo in zip(files, opened):
+        mf = mo.split()
+        if mf[0] != "ok":
+            continue
+        rd = gen.rdict_tokens(e)
+        for n, o in sorted(D.objects.items()):
+            leaves = []
+
+            def walk(x, path_):
+                if isinstance(x, Str):
+                    leaves.append(("s:o", path_, x.b))
+                elif isinstance(x, list):
+                    for j, y in enumerate(x):
+                        walk(y, path_ + ("i%d" % j,))
+                elif isinstance(x, dict):
+                    for kk in sorted(x):
+                        walk(x[kk], path_ + ("k" + hexs(kk),))
+            walk(o.d if isinstance(o, Stream) else o, ())
+            if isinstance(o, Stream):
+                leaves.append((gen.sdict_token(o.d, n == 5), ("stream",), o.data))
+            for kind, path_, data in leaves:
+                lk = leaf_key({"num": n, "path": path_, "gen": 0})
+                dl.append("c6dec " + " ".join(mf[1:13] + [kind, str(n), "0", hexs(data)]))
+                dl.append("dqcase " + " ".join(rd + [kind]))
+                meta.append((p, V, lk, kind))
+    dout = run(dl, shards=4)
+    by_file = {p: im for (p, V, e, k, i0, D), im in zip(files, impl)}
+    tie, classes, nsel = [], set(), 0
+    for (p, V, e, k, i0, D), im, mo in zip(files, impl, opened):
+        mf = mo.split()
+        if im["ok"] != (mf[0] == "ok"):
+            tie.append((p, "-", "-", im.get("raw", "ok")[:120], mo[:120]))
+        elif im["ok"]:
+            mm = "".join(b if (a == "u" and b == "a") else a for a, b in zip(mf[6] + mf[7] + mf[8], im["methods"]))
+            if mm != im["methods"] or im["V"] != mf[1] or im["key"].lower() != mf[9].lower():
+                tie.append((p, "-", "initialize", "V=%s methods=%s key=%s" % (im["V"], im["methods"], im["key"]), " ".join(mf[1:10])))
+            classes.add(("open", V, mf[6] + mf[7] + mf[8], "CF" in [x.decode() for x in e], "EM" if b"EncryptMetadata" in e else ""))
+    for j, (p, V, lk, kind) in enumerate(meta):
+        im = by_file[p]
+        if not im["ok"]:
+            continue
+        d, q = dout[2 * j].split(), dout[2 * j + 1].split()
+        got = im["leaves"].get(lk)
+        mgot = d[1] if d[0] == "ok" else "!error"
+        kshape = kind if kind.startswith("s:") else ":".join(kind.split(":")[:2]) + ":" + re.sub(r"[0-9a-f]{2,}", "N", kind.split(":", 2)[2])
+        classes.add((V, kshape, d[3] if d[0] == "ok" else d[-1], q[0], q[1]))
+        if (got if got is not None else "absent") != mgot and not (got or "").startswith("!"):
+            tie.append((p, lk, kind, (got or "absent")[:120], dout[2 * j][:160]))
+        elif q[0] != "?" and q[1] == "0":
+            nsel += 1
+            if (d[3] if d[0] == "ok" else d[-1]) != q[0]:
+                tie.append((p, lk, kind, "ISO rule (DqIso.v) method " + q[0] + ", outside the finding class", "model: " + dout[2 * j][:100]))
+    if tie:
+        t = tie[0]
+        chk.violation({"kind": "correspondence-broken", "correspondence": "corr:C06:wild-dictionaries", "differing_cases": len(tie), "file": t[0], "leaf": t[1],
+                       "leaf_kind": t[2], "implementation": t[3], "model": t[4]}, no_input=True)
+    chk.count("wild-dictionaries", len(meta) + len(files), classes,
+              samples=[{"case": dl[0][:200], "model": dout[0][:120], "iso method / class": dout[1]}] if dl else [])
+    chk.cov["parts"]["wild-dictionaries"]["leaves_where_the_iso_rule_is_defined_outside_the_class"] = nsel
+
+
 # ---------------------------------------------------------------- documented password recovery (re-encodings)
 def recovery_part(chk, efs, run, drv, work):
     """user password stored in one encoding, supplied in another: opens with recovery, password error without"""
@@ -1328,11 +1487,14 @@ def run(chk):
                        "plus random /P; files: generated documents x {(V,R)} x {StmF, StrF methods independently} x crypt filter naming x /Crypt override forms x "
                        "{classic, object streams + xref stream} x /P spelling x /Length spelling x {user, owner, wrong, empty, hex key} through the library "
                        "(leaf by leaf) and the binary; non-trivial = distinct (scheme, methods, layout, role, outcome) resp. (scheme, leaf class, method) "
-                       "resp. (scheme, command, role, exit status)")
+                       "resp. (scheme, command, role, exit status); dq-rule: the extracted ISO rule for arbitrary dictionaries and the finding class on "
+                       "every leaf of every generated file; wild-dictionaries: arbitrary (also ill-formed) encryption dictionaries x /Filter x /DecodeParms "
+                       "shapes opened with the file key, library vs model byte for byte, model method vs ISO rule outside the finding class")
     perms = part_static(chk, runner)
     ps = lambda R, P: runner(["c6perms %d %d" % (R, P)])[0]
     try:
         part_files(chk, runner, drv, ps)
+        part_wild(chk, runner, drv)
     finally:
         runner.save()
     chk.cov["r6_memo"] = {"hits": runner.hits, "computed_now": runner.fresh}
